@@ -180,7 +180,11 @@ pub fn judge(t: &Tree, hunk: usize, scratch: &Scratch, counters: &[AtomicU64; 2]
                 );
                 counters[1].fetch_add(1, AO::Relaxed);
                 let got = tree::observe(&dest).unwrap_or_default();
-                let under = |p: &str| p == key || p.starts_with(&format!("{key}/"));
+                // Only listed paths are compared: a directory that exists merely because restore
+                // created it on the way to an orphaned older entry (its own entry is not in the
+                // stitched listing) carries the time of the restore, which differs between runs.
+                let listed = |p: &str| full_paths.iter().any(|a| &a[1..] == p);
+                let under = |p: &str| (p == key || p.starts_with(&format!("{key}/"))) && listed(p);
                 let e_sub: Tree = full_tree.iter().filter(|(p, _)| under(p)).map(|(p, n)| (p.clone(), n.clone())).collect();
                 let g_sub: Tree = got.iter().filter(|(p, _)| under(p)).map(|(p, n)| (p.clone(), n.clone())).collect();
                 let diffs = tree::tree_diff(&e_sub, &g_sub, Cmp::FULL);
